@@ -18,6 +18,11 @@ func VerifHarness_C09_Handler() {
 	h := verifDeploy(ps, mode)
 	w := verifRecorder()
 	r := &http.Request{Method: verifNondetString("method"), Body: verifBody()}
+	if verifNondetBool("stop_requested_meanwhile") {
+		// the request was accepted, then a graceful stop began: whatever the server registered to run at shutdown has run, and the
+		// request must still be answered by the same table
+		verifRunShutdownHooks()
+	}
 	h.ServeHTTP(w, r)
 
 	verifAssert(verifNoLocksHeld(), "no lock is still held when the handler returns (a later request cannot hang)")
